@@ -939,7 +939,7 @@ func oracle(args []string) {
 			continue
 		}
 		label := fmt.Sprintf("gen:%s:%d", allKinds[i%len(allKinds)], i)
-		if (i%6 == 4 || (len(f.IATBatches) > 0 && i%2 == 0)) && !hasOffsetEntries(f) {
+		if (i%6 == 4 || (len(f.IATBatches) > 0 && (i/len(allKinds))%2 == 0)) && !hasOffsetEntries(f) {
 			// a file that is valid only under the options stored on it
 			if g := needsOpts(f, r); g != nil {
 				sum.Dist["needs-opts"]++
